@@ -87,6 +87,16 @@ def check_one(cfg, res):
     rsum = float(np.sum(np.log(r_o[a0:a1] / r_i[a0:a1]) / (2 * pi * kk[a0:a1])))
     if abs(rsum - rb_star) > 1e-9 * rb_star:
         v("layer_resistances_do_not_sum_to_rb", f"convection+pipe+grout layers sum to {rsum} m K/W, R_b* = {rb_star}", observed=rsum, expected=rb_star)
+    # (c') materials: every cell from the borehole wall outwards is soil, every cell inside it lies inside the borehole
+    wall = rnb.bh_wall_idx
+    if np.any(np.abs(kk[wall:] - cfg["k_s"]) > 1e-12 * cfg["k_s"]) or np.any(np.abs(rc[wall:] - cfg["rc_s"]) > 1e-9 * cfg["rc_s"]):
+        v("soil_cell_with_other_material", f"a cell outside the borehole wall has k / rho c other than the soil's ({cfg['k_s']}, {cfg['rc_s']})")
+    if np.any(r_o[:wall] > cfg["rb"] * (1 + 1e-12)) or abs(r_i[wall] - cfg["rb"]) > 1e-12:
+        v("borehole_wall_misplaced", f"cells inside the wall reach r = {float(np.max(r_o[:wall]))}, the first soil cell starts at {r_i[wall]}, r_b = {cfg['rb']}")
+    if cfg.get("static_only"):
+        res.outcome("static")
+        res["nontrivial"] += 1
+        return
     # run the model with a recording wrapper around dgtsv
     real = rn.dgtsv
     rec = {"n": 0, "out_sum": 0.0, "last": None, "checks": []}
@@ -105,7 +115,9 @@ def check_one(cfg, res):
         # the physical length of this implicit step as the matrix has it: du[0] = a_e / (rho c V / dt) for the core cell
         dt_k = float(du[0]) * cap[0] / ae0
         out = real(dl, d, du, b, overwrite_b=overwrite_b)
-        x = out[3]
+        x = np.asarray(out[3], dtype=float)
+        if len(x) < n:  # a solver that marches only part of the radius leaves the rest at the initial temperature
+            x = np.concatenate([x, np.full(n - len(x), t_init)])
         rec["n"] += 1
         rec["elapsed"] += dt_k
         rec["steps_dt"].add(round(dt_k, 6))
@@ -119,7 +131,9 @@ def check_one(cfg, res):
 
     rn.dgtsv = spy
     try:
-        lntts, g = rnb.calc_sts_g_functions(bhe)
+        ftf = cfg.get("final_time_factor")
+        period = rnb.calc_time_in_sec * (ftf or 1.0)
+        lntts, g = rnb.calc_sts_g_functions(bhe, final_time=period) if ftf else rnb.calc_sts_g_functions(bhe)
     finally:
         rn.dgtsv = real
     x = rec["last"]
@@ -132,8 +146,8 @@ def check_one(cfg, res):
     if abs(t_label - rec["elapsed"]) > dt_max * (1 + 1e-9) + 1e-6:
         v("time_labels_disagree_with_marched_time", f"the last short-time point is labelled {t_label:.1f} s but the {rec['n']} implicit steps marched {rec['elapsed']:.1f} s "
           f"(step lengths in the matrices: {sorted(rec['steps_dt'])[:4]})", observed=t_label, expected=rec["elapsed"])
-    if t_label < rnb.calc_time_in_sec - 2 * dt_max - 1e-6:
-        v("computed_period_not_covered", f"the last short-time point is at {t_label:.1f} s, the computed period is {rnb.calc_time_in_sec:.1f} s", observed=t_label, expected=rnb.calc_time_in_sec)
+    if t_label < period - 2 * dt_max - 1e-6:
+        v("computed_period_not_covered", f"the last short-time point is at {t_label:.1f} s, the computed period is {period:.1f} s", observed=t_label, expected=period)
     for k, st, inj in rec["checks"]:
         if abs(st - inj) > 1e-6 * abs(inj):
             v("heat_not_conserved", f"after step {k}: cells store {st} J/m, injected minus far-field outflow is {inj} J/m (rel {abs(st - inj) / abs(inj):.2e})", step=k if k <= 100 else "later")
@@ -240,6 +254,17 @@ def main(run: core.Run, only=None):
     light = [c for c in cfgs if c["H"] < 400.0]
     cases = [{"cfgs": light[i:i + 4]} for i in range(0, len(light), 4)] + [{"cfgs": heavy[i:i + 2]} for i in range(0, len(heavy), 2)]
     run.drive(cases, family="lattice")
+    # the cell table alone (no time marching) on a dense geometry lattice: borehole radius in 2.5 mm steps x the standard pipe sizes
+    stat = []
+    for pin, pout in ((0.0081, 0.0100), (0.0102, 0.0125), (0.0109, 0.0134), (0.0131, 0.0160), (0.0136, 0.0167), (0.0163, 0.0200), (0.0170, 0.0211), (0.0204, 0.0250)):
+        cfgs_ = [{"rb": round(0.045 + 0.0025 * i, 4), "pipe": [pin, pout], "H": 100.0, "k_g": kg, "k_s": ks, "rc_g": 3.9e6, "rc_s": 2.3e6, "fluid": ["Water", 0.0], "mdot": 0.3, "static_only": True}
+                 for i in range(31) for kg, ks in ((0.8, 3.0), (2.0, 1.1))]
+        stat.append({"cfgs": cfgs_})
+    run.drive(stat, family="cell-table-geometry-lattice")
+    # an explicitly requested, longer period (the solver's final_time argument)
+    longer = [{"rb": rb, "pipe": [0.0136, 0.0167], "H": h, "k_g": 1.0, "k_s": ks, "rc_g": 3.9e6, "rc_s": 2.3e6, "fluid": ["Water", 0.0], "mdot": 0.3, "reference": True, "final_time_factor": f}
+              for rb, h, ks in ((0.075, 100.0, 2.0), (0.055, 60.0, 3.5)) for f in ((4.0,) if quick else (2.0, 4.0, 9.8))]
+    run.drive([{"cfgs": [c]} for c in longer], family="explicit-final-time")
     base = {"rb": 0.075, "pipe": [0.0136, 0.0167], "H": 100.0, "k_g": 1.0, "k_s": 2.0, "rc_g": 3.9e6, "rc_s": 2.3e6, "fluid": ["Water", 0.0], "mdot": 0.3}
     reuse = [{"cfg": dict(base, **d), "steps": st} for d in ({}, {"H": 60.0, "mdot": 0.05}, {"rb": 0.12, "k_s": 4.0})
              for st in ([{"H": 60.0}, {"H": 135.0}, {"H": 60.0}], [{"ugt": 11.0}, {"ugt": 25.0}], [{"H": 80.0, "ugt": 5.0}, {"H": 300.0}, {"ugt": 18.3}])]
